@@ -150,7 +150,9 @@ func TestC10Price(t *testing.T) {
 		}
 		for _, d := range ds {
 			var pr sdk.Dec
-			pn, _ := safely(func() { pr = a.NewaucKeeper.GetPriceFromLinearDecreaseFunction(init, sdk.NewInt(d.tau), sdk.NewInt(d.t)) })
+			pn, _ := safely(func() {
+				pr = a.NewaucKeeper.GetPriceFromLinearDecreaseFunction(init, sdk.NewInt(d.tau), sdk.NewInt(d.t))
+			})
 			if pn {
 				tr.p("f %d %d panic 0", d.tau, d.t)
 			} else {
@@ -244,8 +246,22 @@ func (cs c10Case) golit() string {
 	return sb.String()
 }
 
-// corpus: regression inputs of repaired defects, always run first (cases 0 ..)
-var c10Corpus = []c10Case{}
+// corpus: regression inputs of repaired defects, always run first (cases 0 ..); they consume no
+// randomness, so VERIF_CASE replays them under every seed
+var c10Corpus = []c10Case{
+	// C10-F3 (fixed): external auction, KeeeperIncentive 0.1 - the closing bids (493593, 3x) used to panic on the
+	// empty InternalKeeperAddress (first build: VERIF_SEED=1 case 0 step 7)
+	{p: c10Params{premium: c10Dec("1.500000000000000000"), disc: c10Dec("0.700000000000000000"), ki: c10Dec("0.100000000000000000"), vaultPenalty: c10Dec("0.150000000000000000"), extPenalty: c10Dec("0.100000000000000000"), extBonus: c10Dec("0.000000000000000000"), dur: 3600, minUsd: 1000000, dc: 1000000, dd: 1000000}, kinds: [2]int{2, 1}, twaC0: 1000000, twaD: 1000000, collUnits: [2]int64{568, 4352}, crCreate: [2]int64{164, 213}, dropTo: [2]int64{141, 130}, extRatio: [2]int64{79, 103}, reserveClass: 3, plan: []c10PlanOp{{kind: 1, who: 0, class: 0, f1: 70, f2: 0, dtClass: 7, priceClass: 18}, {kind: 1, who: 0, class: 0, f1: 104, f2: 1, dtClass: 7, priceClass: 0}, {kind: 0, who: 0, class: 4, f1: 45, f2: 652, dtClass: 0, priceClass: 0}, {kind: 1, who: 0, class: 0, f1: 120, f2: 0, dtClass: 0, priceClass: 11}, {kind: 0, who: 2, class: 1, f1: 98, f2: 568, dtClass: 0, priceClass: 0}, {kind: 0, who: 0, class: 7, f1: 86, f2: 206, dtClass: 0, priceClass: 0}, {kind: 1, who: 0, class: 0, f1: 127, f2: 1, dtClass: 5, priceClass: 18}, {kind: 1, who: 0, class: 0, f1: 102, f2: 0, dtClass: 5, priceClass: 9}, {kind: 1, who: 0, class: 0, f1: 70, f2: 1, dtClass: 1, priceClass: 10}, {kind: 0, who: 1, class: 8, f1: 56, f2: 815, dtClass: 0, priceClass: 0}, {kind: 0, who: 1, class: 0, f1: 37, f2: 730, dtClass: 0, priceClass: 0}, {kind: 2, who: 0, class: 0, f1: 0, f2: 1, dtClass: 0, priceClass: 0}}},
+	// C10-F2 (fixed): external auction, reserve 1000, exhausted close with shortfall 440072 used to succeed with
+	// nothing transferred and a reserve record of -439072 (first build: VERIF_SEED=1 case 92 step 12)
+	{p: c10Params{premium: c10Dec("1.500000000000000000"), disc: c10Dec("0.650000000000000000"), ki: c10Dec("0.000000000000000000"), vaultPenalty: c10Dec("0.120000000000000000"), extPenalty: c10Dec("0.100000000000000000"), extBonus: c10Dec("0.100000000000000000"), dur: 1000, minUsd: 0, dc: 1000000, dd: 1000000}, kinds: [2]int{2, 0}, twaC0: 2000000, twaD: 1000000, collUnits: [2]int64{4890, 1688}, crCreate: [2]int64{222, 179}, dropTo: [2]int64{102, 132}, extRatio: [2]int64{85, 81}, reserveClass: 1, plan: []c10PlanOp{{kind: 0, who: 2, class: 7, f1: 31, f2: 885, dtClass: 0, priceClass: 0}, {kind: 1, who: 0, class: 0, f1: 110, f2: 0, dtClass: 3, priceClass: 10}, {kind: 1, who: 0, class: 0, f1: 87, f2: 0, dtClass: 8, priceClass: 14}, {kind: 0, who: 0, class: 0, f1: 35, f2: 754, dtClass: 0, priceClass: 0}, {kind: 0, who: 1, class: 0, f1: 11, f2: 936, dtClass: 0, priceClass: 0}, {kind: 0, who: 0, class: 1, f1: 43, f2: 105, dtClass: 0, priceClass: 0}, {kind: 0, who: 2, class: 1, f1: 86, f2: 878, dtClass: 0, priceClass: 0}, {kind: 1, who: 0, class: 0, f1: 117, f2: 0, dtClass: 4, priceClass: 15}, {kind: 0, who: 2, class: 7, f1: 74, f2: 902, dtClass: 0, priceClass: 0}, {kind: 1, who: 0, class: 0, f1: 119, f2: 0, dtClass: 5, priceClass: 2}, {kind: 0, who: 0, class: 8, f1: 72, f2: 245, dtClass: 0, priceClass: 0}, {kind: 1, who: 0, class: 0, f1: 73, f2: 1, dtClass: 4, priceClass: 15}, {kind: 0, who: 2, class: 6, f1: 34, f2: 418, dtClass: 0, priceClass: 0}}},
+	// the same history with a big reserve: the exhausted close succeeds and is fully backed
+	{p: c10Params{premium: c10Dec("1.500000000000000000"), disc: c10Dec("0.650000000000000000"), ki: c10Dec("0.000000000000000000"), vaultPenalty: c10Dec("0.120000000000000000"), extPenalty: c10Dec("0.100000000000000000"), extBonus: c10Dec("0.100000000000000000"), dur: 1000, minUsd: 0, dc: 1000000, dd: 1000000}, kinds: [2]int{2, 0}, twaC0: 2000000, twaD: 1000000, collUnits: [2]int64{4890, 1688}, crCreate: [2]int64{222, 179}, dropTo: [2]int64{102, 132}, extRatio: [2]int64{85, 81}, reserveClass: 2, plan: []c10PlanOp{{kind: 0, who: 2, class: 7, f1: 31, f2: 885, dtClass: 0, priceClass: 0}, {kind: 1, who: 0, class: 0, f1: 110, f2: 0, dtClass: 3, priceClass: 10}, {kind: 1, who: 0, class: 0, f1: 87, f2: 0, dtClass: 8, priceClass: 14}, {kind: 0, who: 0, class: 0, f1: 35, f2: 754, dtClass: 0, priceClass: 0}, {kind: 0, who: 1, class: 0, f1: 11, f2: 936, dtClass: 0, priceClass: 0}, {kind: 0, who: 0, class: 1, f1: 43, f2: 105, dtClass: 0, priceClass: 0}, {kind: 0, who: 2, class: 1, f1: 86, f2: 878, dtClass: 0, priceClass: 0}, {kind: 1, who: 0, class: 0, f1: 117, f2: 0, dtClass: 4, priceClass: 15}, {kind: 0, who: 2, class: 7, f1: 74, f2: 902, dtClass: 0, priceClass: 0}, {kind: 1, who: 0, class: 0, f1: 119, f2: 0, dtClass: 5, priceClass: 2}, {kind: 0, who: 0, class: 8, f1: 72, f2: 245, dtClass: 0, priceClass: 0}, {kind: 1, who: 0, class: 0, f1: 73, f2: 1, dtClass: 4, priceClass: 15}, {kind: 0, who: 2, class: 6, f1: 34, f2: 418, dtClass: 0, priceClass: 0}}},
+	// external + incentive, immediate full bid, then a second external auction closed by an over-sized bid
+	{p: c10Params{premium: c10Dec("1.2"), disc: c10Dec("0.7"), ki: c10Dec("0.1"), vaultPenalty: c10Dec("0.12"), extPenalty: c10Dec("0.1"), extBonus: c10Dec("0.05"), dur: 60, minUsd: 0, dc: 1000000, dd: 1000000},
+		kinds: [2]int{2, 2}, twaC0: 2000000, twaD: 1000000, collUnits: [2]int64{1000, 2500}, crCreate: [2]int64{200, 200}, dropTo: [2]int64{120, 120}, extRatio: [2]int64{60, 90}, reserveClass: 2,
+		plan: []c10PlanOp{{kind: 0, who: 0, class: 5, f1: 50, f2: 0}, {kind: 2}, {kind: 1, dtClass: 3, priceClass: 10, f1: 100}, {kind: 0, who: 1, class: 3, f1: 40, f2: 0}, {kind: 0, who: 1, class: 8, f1: 50, f2: 0}}},
+}
 
 func TestC10(t *testing.T) {
 	a, base := newApp(t)
